@@ -69,6 +69,9 @@ pub struct PreCred {
     pub counter: Option<u32>,
     /// None: no hmac secrets; Some(false): only cred_with_uv; Some(true): both
     pub hmac: Option<bool>,
+    /// length of the stored secrets (0 = the usual 32); an item imported from elsewhere may carry others
+    #[serde(default)]
+    pub hmac_len: u8,
 }
 
 #[derive(Serialize, Deserialize, Clone, Copy, Debug, PartialEq, Eq, Hash)]
@@ -341,6 +344,9 @@ pub struct HidMsg {
     /// payload = bytes generated from this seed (xoshiro), or all `fill` when Some
     pub payload_seed: u64,
     pub fill: Option<u8>,
+    /// the endpoint refuses the n-th write of this message once: (n, 0 = interrupted, 1 = would block, 2 = broken pipe)
+    #[serde(default)]
+    pub write_fault: Option<(u32, u8)>,
 }
 
 #[derive(Serialize, Deserialize, Clone, Debug, PartialEq)]
